@@ -42,6 +42,7 @@ FORM_INDEPENDENT = [
     r"^C15\.R2 ",  # freshness facts on every accepting path; nofollow; running max
     r"^C15\.R4 ",  # publication typestate: what is opened for writing, what is renamed onto what, in which order
     r"^C16\.R2 ",  # open modes / flag words folded under each flag value
+    r"^C16\.R1 .*:write_(text|bytes)@",  # an output path written in one call, outside the output-handle function: no mode to fold, no guard to find
     r"^C17\.R2 ",  # value flow
     r"^C17\.R3 .*:reads-files$",
     r"^C18\.R6 .*:memo$",
